@@ -89,6 +89,8 @@ fn fixture(perm: Perm) -> Fixture {
     let mut other_crdt = RegisterCrdt::new(*other_base.address());
     let (_h8, other_addr, d8) = other_crdt.write(b"for-the-other-register".to_vec(), &none).unwrap();
     let (_h9, _, d9) = crdt.write(b"forged".to_vec(), &none).unwrap();
+    // the entry of root1 once more, this time as a child of root2: another node of the DAG with the same value
+    let (_h10, _, d10) = crdt.write(b"root-1".to_vec(), &BTreeSet::from([h2])).unwrap();
     let r1 = RegisterOp::new(addr, d1, &owner);
     let r2 = RegisterOp::new(addr, d2, &writer);
     let c1 = RegisterOp::new(addr, d3, &owner);
@@ -98,6 +100,8 @@ fn fixture(perm: Perm) -> Fixture {
     // the same entry from the same source as root1, carrying another signature (a re-signed / tampered copy): an op
     // *different* from root1, which an open register may hold next to it
     let resigned = splice_signature(&r1, &r2);
+    // root1's value, source and signature on a node with other children (a genuine op moved elsewhere in the history)
+    let reparented = splice_signature(&RegisterOp::new(addr, d10, &owner), &r1);
     let pool = vec![
         PoolOp { name: "root1/owner", op: r1, by_owner: true, by_writer: false, sig_valid: true, size_ok: true, right_address: true },
         PoolOp { name: "root2/writer", op: r2, by_owner: false, by_writer: true, sig_valid: true, size_ok: true, right_address: true },
@@ -106,6 +110,7 @@ fn fixture(perm: Perm) -> Fixture {
         PoolOp { name: "stranger", op: RegisterOp::new(addr, d5, &stranger), by_owner: false, by_writer: false, sig_valid: true, size_ok: true, right_address: true },
         PoolOp { name: "forged-signature/owner", op: forged, by_owner: true, by_writer: false, sig_valid: false, size_ok: true, right_address: true },
         PoolOp { name: "root1-with-another-signature", op: resigned, by_owner: true, by_writer: false, sig_valid: false, size_ok: true, right_address: true },
+        PoolOp { name: "root1-reparented-under-root2-with-root1's-signature", op: reparented, by_owner: true, by_writer: false, sig_valid: false, size_ok: true, right_address: true },
         PoolOp { name: "oversized(1025)/owner", op: RegisterOp::new(addr, d6, &owner), by_owner: true, by_writer: false, sig_valid: true, size_ok: false, right_address: true },
         PoolOp { name: "max-size(1024)/owner", op: RegisterOp::new(addr, d7, &owner), by_owner: true, by_writer: false, sig_valid: true, size_ok: true, right_address: true },
         PoolOp { name: "other-register/owner", op: RegisterOp::new(other_addr, d8, &owner), by_owner: true, by_writer: false, sig_valid: true, size_ok: true, right_address: false },
@@ -641,11 +646,11 @@ pub fn main(tier: Option<&str>) {
     run.rule(
         "(a) all 2^5 sub-registers of the authorised pool: every pair (verified_merge both ways) and every triple (merge) for two permission \
          settings; every permutation (+ one duplication) of every subset through RegisterCrdt::apply_op. (b) BFS, clone mode: 2(3) real \
-         SignedRegister replicas x 3 permission settings, actions Deliver(op in 10-op pool, r), Merge/verified_merge(r->s), verify/verified_merge of a hand-built register carrying an op that must not enter, merge/verified_merge with three \
+         SignedRegister replicas x 3 permission settings, actions Deliver(op in 11-op pool, r), Merge/verified_merge(r->s), verify/verified_merge of a hand-built register carrying an op that must not enter, merge/verified_merge with three \
          different base registers (another meta; the same address with other owner-signed permissions, empty and carrying an op valid only under those); state key = per replica the set of pool ops held. (c) BFS across the entry limit from replicas pre-filled to \
          1022..1024 entries. Non-trivial = involves at least two distinct operands.",
     );
-    run.assume("fixed BLS keys (owner, writer, stranger); 9-op pool; entry contents fixed");
+    run.assume("fixed BLS keys (owner, writer, stranger); 11-op pool (authorised, stranger, forged signature, a re-signed copy, a genuine op's value+source+signature on a node with other children, oversized, max-size, foreign address); entry contents fixed");
     run.assume("in an anyone-can-write register the statement does not demand signature checking; forged signatures are not judged there");
     run.assume("clause (c) reuses one signature for its 1028 ops: anyone-can-write registers never verify op signatures");
     algebra(&run);
